@@ -31,3 +31,8 @@ chk("C07", "engine-I", "exploration",
     "On 15 on-disk corpora every rewrite-closure spelling (namespace none/sp./{'sp':..}; dotted/nested/mixed key; operator nested/suffix; mapping, sequence of pairs, find_jobs string, command-line tokens via parse_filter_arg+_find_job_ids and, in thorough, via signac.__main__.main()) of every atom and of a depth-2 set must select the reference id set; for 34 filters per corpus len/iteration/every index/every slice/membership of every universe job (initialised or not) must describe one id set; groupby over 16 key specs x 3 defaults x 4 selections must be a disjoint exact partition whose labels equal each member's own values in key order.",
     "Trusted: vlib/refmodels/query.py. Token spellings only for values whose text casts back; unsortable label corpora skipped and counted.",
     "bounded-exhaustive enumeration of spellings / cursor operations / grouping keys against a reference model", "DESIGN.md section 6 C07")
+ENGINES[1]["serves_properties"] = ["C03", "C08"]
+chk("C03", "engine-H", "model_checking",
+    "Breadth-first search over histories of ~30 public operations (open/init, document set/delete, file creation, clear/reset/remove, state point key set/type toggle/delete/nested edit/whole assignment, update_statepoint x overwrite, move, clone, update_cache, new Project object, reopen by id, decoy directories) on two projects with up to 5 live handles per job (by state point, copy.copy, deepcopy, pickle in-process and through a fresh process), to depth 3 (quick) / 4 (thorough) over the full alphabet and depth 5 / 6 over a closed sub-universe, de-duplicated by canonical state. After every transition the ids, state points, documents and file trees seen through fresh handles equal a plain model, check() passes, directory names hash their state point file, len/iteration/membership agree, decoys are not jobs, no temp/backup files remain, and every current handle (shallow copies included) describes its job.",
+    "Trusted: the reference model in vlib/world.py and its currency rule (handles whose job was removed/re-keyed/moved through another handle are not used again). Histories beyond the depth bound are not covered.",
+    "explicit-state model checking of the implementation (BFS over API histories, canonical-state hashing), reference model in lock step", "DESIGN.md section 6 C03")
